@@ -2958,9 +2958,7 @@ class Storage(Formatter, fmt="%b"):
         if (b := self.byte2bit(self.byte)) != self.bit:
             raise FormatterValueError(
                 f"Byte that was parsed does not equal with bit, receive {b} bit"
-                f"(byte to bit) but get "
-                f"{self.bit:.{self.Config.storage_rounding:02d}f} bit from "
-                f"parsing."
+                f"(byte to bit) but get {self.bit} bit from parsing."
             )
         return True
 
